@@ -84,6 +84,18 @@ type (
 	}
 )
 
+// Validate implements custom validation for Policy
+func (p *Policy) Validate() error {
+	if p.LimitRefreshPeriod == "" {
+		return nil
+	}
+	// an unparsable value is reported by the 'duration' format
+	if d, err := time.ParseDuration(p.LimitRefreshPeriod); err == nil && d <= 0 {
+		return fmt.Errorf("limitRefreshPeriod of policy '%s' must be positive", p.Name)
+	}
+	return nil
+}
+
 // Validate implements custom validation for Spec
 func (spec Spec) Validate() error {
 URLLoop:
